@@ -119,7 +119,7 @@ impl<'a> ExpressionEvaluator<'a> {
                     ));
                 };
                 Ok(vec![DataType::Bool(Bool(
-                    matches!(evaluated[0], DataType::Null) || *negated,
+                    matches!(evaluated[0], DataType::Null) != *negated,
                 ))])
             }
             BoundExpression::Between {
@@ -137,8 +137,13 @@ impl<'a> ExpressionEvaluator<'a> {
                     ));
                 };
 
+                // SQL three-valued logic: a NULL operand makes the whole predicate unknown
+                if inner[0].is_null() || low[0].is_null() || high[0].is_null() {
+                    return Ok(vec![DataType::Null]);
+                }
+
                 Ok(vec![DataType::Bool(Bool(
-                    (inner[0] >= low[0] && inner[0] <= high[0]) || *negated,
+                    (inner[0] >= low[0] && inner[0] <= high[0]) != *negated,
                 ))])
             }
             BoundExpression::Exists { query, negated } => {
@@ -163,9 +168,18 @@ impl<'a> ExpressionEvaluator<'a> {
                         "cannot apply unary operators to lists of values!".to_string(),
                     ));
                 };
-                Ok(vec![DataType::Bool(Bool(
-                    set.contains(&evaluated[0]) || *negated,
-                ))])
+                // SQL three-valued logic: NULL IN (...) is unknown; a miss against a list that
+                // contains NULL is unknown as well
+                if evaluated[0].is_null() {
+                    return Ok(vec![DataType::Null]);
+                }
+                if set.contains(&evaluated[0]) {
+                    return Ok(vec![DataType::Bool(Bool(!*negated))]);
+                }
+                if set.contains(&DataType::Null) {
+                    return Ok(vec![DataType::Null]);
+                }
+                Ok(vec![DataType::Bool(Bool(*negated))])
             }
             BoundExpression::Subquery { query, result_type } => {
                 todo!("Subquery evaluation is not yet implemented")
